@@ -136,7 +136,7 @@ Section FillMap.
 
   Lemma fill_map_append : forall (m : list (str * X)) (acc : bucket),
     Sorted str_lt (map fst m) ->
-    Forall (fun kv : str * X => (fst kv <> [] /\ len (fst kv) <= MaxKeySize)
+    Forall (fun kv : str * X => (fst kv <> [] /\ len (fst kv) <= MaxKeySize /\ fst kv <> ListSizeKeyName)
               /\ exists n, f (snd kv) = Ok n /\ node_fits n /\ P (snd kv) n) m ->
     keys_below acc (map fst m) ->
     exists ns, Forall2 (fun (kv : str * X) (kn : str * node) => fst kn = fst kv /\ P (snd kv) (snd kn)) m ns
@@ -144,8 +144,8 @@ Section FillMap.
   Proof.
     induction m as [|[k x] t IH]; intros acc Hs Hall Hbelow.
     - exists []. split; [constructor | cbn; rewrite app_nil_r; reflexivity].
-    - inversion Hall as [|? ? [[Hk1 Hk2] (n & Hf & Hfit & HP)] Hall']; subst. cbn [fst snd] in *.
-      cbn [fill_map]. rewrite Hf. cbn [bind].
+    - inversion Hall as [|? ? [(Hk1 & Hk2 & Hk3) (n & Hf & Hfit & HP)] Hall']; subst. cbn [fst snd] in *.
+      cbn [fill_map]. rewrite (proj2 (str_eqb_neq k ListSizeKeyName) Hk3). rewrite Hf. cbn [bind].
       assert (Hnone : a_lookup k acc = None).
       { apply a_lookup_none_keys. intros Hin.
         apply (str_lt_irrefl k). apply (Hbelow k k Hin). left; reflexivity. }
@@ -279,8 +279,8 @@ Proof.
     cbn [entry_node].
     destruct (fill_map_append value (entry_node true) (fun x n => get_node n = x) m []) as (ns & HF2 & Hfill).
     + exact Hs.
-    + rewrite Forall_forall in *. intros kv Hin. destruct (Hall kv Hin) as [(Hk1 & Hk2 & _) Hw].
-      split; [split; assumption|]. exact (IH kv Hin Hw).
+    + rewrite Forall_forall in *. intros kv Hin. destruct (Hall kv Hin) as [(Hk1 & Hk2 & Hk3) Hw].
+      split; [repeat split; assumption|]. exact (IH kv Hin Hw).
     + intros ka km []. 
     + rewrite Hfill. cbn [bind app]. exists (Sub ns). split; [reflexivity|]. split; [exact I|].
       rewrite get_node_sub.
@@ -313,6 +313,149 @@ Proof.
       unfold nth_entry. rewrite a_lookup_entries.
       rewrite a_lookup_insert_other by (apply index_key_not_marker).
       destruct (Hget j Hj) as (n & Hl & Hg). rewrite N.add_0_l in Hl. rewrite Hl. cbn [option_map]. exact Hg.
+Qed.
+
+(* ---- whatever was written reads back equal --------------------------------------------------------- *)
+(* the values the model can stand for: scalars in the range of their Go type, a Go map as its
+   key-sorted association list, lists shorter than 2^31.  No condition on the keys: a key the
+   store cannot take makes the write fail, it never makes it succeed with another content. *)
+Inductive Representable : value -> Prop :=
+| RepS s : wf_scalar s = true -> Representable (VS s)
+| RepMap m : Sorted str_lt (map fst m) -> Forall (fun kv : str * value => Representable (snd kv)) m -> Representable (VMap m)
+| RepList l : N.of_nat (length l) < 2 ^ 31 -> Forall Representable l -> Representable (VList l).
+
+Lemma WfValue_Representable v : WfValue v -> Representable v.
+Proof.
+  induction v as [s| |m IH|l IH] using value_ind'; intros H; inversion H; subst.
+  - constructor. match goal with Hl : leaf_ok _ |- _ => exact (proj1 Hl) end.
+  - constructor; [assumption|]. rewrite Forall_forall in *. intros kv Hin.
+    match goal with Ha : forall x, In x m -> key_ok _ /\ WfValue _ |- _ => exact (IH kv Hin (proj2 (Ha kv Hin))) end.
+  - constructor; [assumption|]. rewrite Forall_forall in *. intros x Hin.
+    match goal with Ha : forall x, In x l -> WfValue x |- _ => exact (IH x Hin (Ha x Hin)) end.
+Qed.
+
+Section FillMapOk.
+  Variable X : Type.
+  Variable f : X -> res node.
+  Variable P : X -> node -> Prop.
+
+  Lemma fill_map_ok_shape : forall (m : list (str * X)) (acc c : bucket),
+    Sorted str_lt (map fst m) ->
+    keys_below acc (map fst m) ->
+    Forall (fun kv : str * X => forall n, f (snd kv) = Ok n -> P (snd kv) n) m ->
+    fill_map f m acc = Ok c ->
+    ~ In ListSizeKeyName (map fst m) /\
+    exists ns, Forall2 (fun (kv : str * X) (kn : str * node) => fst kn = fst kv /\ P (snd kv) (snd kn)) m ns
+               /\ c = acc ++ ns.
+  Proof.
+    induction m as [|[k x] t IH]; intros acc c Hs Hbelow Hall H.
+    - cbn in H. inversion H; subst. split; [intros []|]. exists []. split; [constructor | rewrite app_nil_r; reflexivity].
+    - cbn [fill_map] in H. destruct (str_eqb k ListSizeKeyName) eqn:Em; [discriminate|]. apply str_eqb_neq in Em.
+      destruct (f x) as [n| | |] eqn:Ef; cbn [bind] in H; try discriminate.
+      destruct (place k n acc) as [acc1| | |] eqn:Ep; cbn [bind] in H; try discriminate.
+      inversion Hall as [|? ? HP Hall']; subst. cbn [fst snd] in *.
+      rewrite (place_ok_insert _ _ _ _ Ep) in H.
+      rewrite a_insert_last in H.
+      2:{ apply Forall_forall. intros [ka va] Hin. cbn [fst]. apply (Hbelow ka k).
+          - unfold a_keys. apply in_map_iff. exists (ka, va). split; [reflexivity | exact Hin].
+          - left; reflexivity. }
+      cbn [map] in Hs.
+      destruct (IH (acc ++ [(k, n)]) c) as (Hnm & ns & HF2 & Hc).
+      + inversion Hs; assumption.
+      + intros ka km Hka Hkm. unfold a_keys in Hka. rewrite map_app in Hka. apply in_app_iff in Hka.
+        destruct Hka as [Hka|Hka].
+        * apply (Hbelow ka km Hka). right. exact Hkm.
+        * cbn in Hka. destruct Hka as [<-|[]]. exact (sorted_strict_head_min _ _ Hs _ Hkm).
+      + exact Hall'.
+      + exact H.
+      + split.
+        * cbn [map fst In]. intros [E|E]; [congruence | contradiction].
+        * exists ((k, n) :: ns). split.
+          -- constructor; [split; [reflexivity | exact (HP n Ef)] | exact HF2].
+          -- rewrite Hc, <- app_assoc. reflexivity.
+  Qed.
+End FillMapOk.
+
+Section FillListOk.
+  Variable X : Type.
+  Variable f : X -> res node.
+  Variable P : X -> node -> Prop.
+  Variable d : X.
+
+  Lemma fill_list_ok_lookup : forall (l : list X) (idx : N) (acc c : bucket),
+    Forall (fun x => forall n, f x = Ok n -> P x n) l ->
+    idx + N.of_nat (length l) <= 2 ^ 32 ->
+    fill_list f l idx acc = Ok c ->
+    (forall j, (j < length l)%nat ->
+       exists n, a_lookup (index_key (idx + N.of_nat j)) c = Some n /\ P (nth j l d) n) /\
+    (forall k, (forall j, (j < length l)%nat -> k <> index_key (idx + N.of_nat j)) -> a_lookup k c = a_lookup k acc).
+  Proof.
+    induction l as [|x t IH]; intros idx acc c Hall Hidx H.
+    - cbn in H. inversion H; subst. split; [intros j Hj; cbn in Hj; lia | reflexivity].
+    - cbn [fill_list] in H. destruct (f x) as [n| | |] eqn:Ef; cbn [bind] in H; try discriminate.
+      destruct (place (index_key idx) n acc) as [acc1| | |] eqn:Ep; cbn [bind] in H; try discriminate.
+      inversion Hall as [|? ? HP Hall']; subst. cbn [length] in Hidx.
+      destruct (IH (idx + 1) acc1 c Hall' ltac:(lia) H) as (Hget & Hother). split.
+      + intros [|j] Hj.
+        * exists n. split; [|exact (HP n Ef)]. rewrite N.add_0_r. rewrite Hother.
+          -- exact (place_lookup_same _ _ _ _ Ep).
+          -- intros j' Hj' E. apply index_key_inj in E; lia.
+        * cbn [length] in Hj. destruct (Hget j ltac:(lia)) as (n' & Hl & HP').
+          exists n'. split; [|exact HP']. replace (idx + N.of_nat (S j)) with (idx + 1 + N.of_nat j) by lia. exact Hl.
+      + intros k Hk. rewrite Hother.
+        * apply (place_lookup_other _ _ _ _ _ Ep). specialize (Hk 0%nat ltac:(cbn; lia)). rewrite N.add_0_r in Hk. exact Hk.
+        * intros j Hj. specialize (Hk (S j) ltac:(cbn [length]; lia)).
+          replace (idx + N.of_nat (S j)) with (idx + 1 + N.of_nat j) in Hk by lia. exact Hk.
+  Qed.
+End FillListOk.
+
+Lemma b_put_ok_insert k v b b' : b_put k v b = Ok b' -> b' = a_insert k (Leaf v) b.
+Proof. intros H. exact (place_ok_insert k (Leaf v) b b' H). Qed.
+
+(* every successful setMarshaled is read back by getMarshaled as the value written *)
+Lemma entry_node_read_back : forall (v : value) (n : node),
+  Representable v -> entry_node true v = Ok n -> get_node n = v.
+Proof.
+  induction v as [s| |m IH|l IH] using value_ind'; intros n Hrep H.
+  - inversion Hrep; subst. cbn in H. inversion H; subst n. cbn [get_node].
+    rewrite decode_encode_scalar by assumption. reflexivity.
+  - inversion Hrep.
+  - inversion Hrep as [|? Hs Hall|]; subst. cbn [entry_node] in H.
+    destruct (fill_map (entry_node true) m []) as [c| | |] eqn:Ec; cbn [bind] in H; try discriminate.
+    inversion H; subst n.
+    destruct (fill_map_ok_shape value (entry_node true) (fun x n => get_node n = x) m [] c Hs) as (Hnm & ns & HF2 & Hc).
+    + intros ka km [].
+    + rewrite Forall_forall in *. intros kv Hin n Hn. exact (IH kv Hin n (Hall kv Hin) Hn).
+    + exact Ec.
+    + cbn [app] in Hc. subst c. rewrite get_node_sub.
+      assert (Hnone : list_size ns = None).
+      { unfold list_size. replace (a_lookup ListSizeKeyName ns) with (@None node); [reflexivity|].
+        symmetry. apply a_lookup_none_keys. rewrite (forall2_keys _ (fun x n => get_node n = x) _ _ HF2). exact Hnm. }
+      rewrite Hnone. rewrite (forall2_entries _ _ HF2). reflexivity.
+  - inversion Hrep as [| |? Hlen Hall]; subst. cbn [entry_node] in H.
+    destruct (fill_list (entry_node true) l 0 []) as [c| | |] eqn:Ec; cbn [bind] in H; try discriminate.
+    destruct (b_put ListSizeKeyName (int32_to_bytes (N.of_nat (length l))) c) as [c'| | |] eqn:Eb; cbn [bind] in H; try discriminate.
+    inversion H; subst n.
+    destruct (fill_list_ok_lookup value (entry_node true) (fun x n => get_node n = x) (VS SNil) l 0 [] c) as (Hget & Hother).
+    + rewrite Forall_forall in *. intros x Hin n Hn. exact (IH x Hin n (Hall x Hin) Hn).
+    + assert (2 ^ 31 < 2 ^ 32) by (apply N.pow_lt_mono_r; lia). lia.
+    + exact Ec.
+    + rewrite (b_put_ok_insert _ _ _ _ Eb).
+      rewrite get_node_sub. unfold list_size. rewrite a_lookup_insert_same.
+      rewrite (read_int32_count _ Hlen).
+      replace (Z.of_N (N.of_nat (length l)) <? 0)%Z with false by (symmetry; apply Z.ltb_ge; lia).
+      replace (Z.to_nat (Z.of_N (N.of_nat (length l)))) with (length l) by lia.
+      f_equal. apply (map_seq_nth _ _ _ (VS SNil)). intros j Hj.
+      unfold nth_entry. rewrite a_lookup_entries.
+      rewrite a_lookup_insert_other by (apply index_key_not_marker).
+      destruct (Hget j Hj) as (n & Hl & Hg). rewrite N.add_0_l in Hl. rewrite Hl. cbn [option_map]. exact Hg.
+Qed.
+
+Lemma entry_node_read_back_any (an : bool) (v : value) (n : node) :
+  Representable v -> entry_node an v = Ok n -> get_node n = v.
+Proof.
+  intros Hrep H. destruct an; [exact (entry_node_read_back v n Hrep H)|].
+  apply (entry_node_read_back v n Hrep). destruct v; cbn in *; try discriminate; exact H.
 Qed.
 
 (* ---- setter calls on the entity bucket ----------------------------------------------------------- *)
@@ -417,6 +560,7 @@ Lemma fill_map_mono (X : Type) (f g : X -> res node) :
   forall m acc c, fill_map f m acc = Ok c -> fill_map g m acc = Ok c.
 Proof.
   intros Hfg. induction m as [|[k x] t IH]; intros acc c H; cbn [fill_map] in *; [exact H|].
+  destruct (str_eqb k ListSizeKeyName); [discriminate|].
   destruct (f x) as [n| | |] eqn:Ef; cbn [bind] in H; try discriminate.
   rewrite (Hfg _ _ Ef). cbn [bind].
   destruct (place k n acc) as [acc'| | |]; cbn [bind] in *; try discriminate. exact (IH _ _ H).
@@ -440,14 +584,14 @@ Qed.
 
 (* PutMap then GetMap / getMarshaled, in a bucket with arbitrary other content *)
 Lemma map_roundtrip c name m an b b' :
-  WfValue (VMap m) -> proceed c name = true -> apply_op c (OpMap name m an) b = Ok b' ->
+  Representable (VMap m) -> proceed c name = true -> apply_op c (OpMap name m an) b = Ok b' ->
   get_map name b' = m /\ get_marshaled name b' = VMap m.
 Proof.
-  intros Hwf Hp H.
+  intros Hrep Hp H.
   destruct (apply_op_proceeds c (OpMap name m an) b b') as (n & Hn & Hl & _);
     [unfold op_proceeds; cbn; exact Hp | exact H |].
   cbn [op_node op_name] in Hn, Hl. apply map_node_entry in Hn.
-  destruct (entry_node_roundtrip _ Hwf) as (n' & Hn' & _ & Hg). rewrite Hn in Hn'. inversion Hn'; subst n'.
+  pose proof (entry_node_read_back _ _ Hrep Hn) as Hg.
   unfold get_map, get_marshaled. rewrite Hl.
   destruct (get_node_vmap_inv _ _ Hg) as (sub & -> & He). split; [exact He | exact Hg].
 Qed.
@@ -465,14 +609,14 @@ Qed.
 
 (* PutList then GetList / getMarshaled *)
 Lemma list_roundtrip c name l b b' :
-  WfValue (VList l) -> proceed c name = true -> apply_op c (OpList name l) b = Ok b' ->
+  Representable (VList l) -> proceed c name = true -> apply_op c (OpList name l) b = Ok b' ->
   get_list name b' = Ok (Some l) /\ get_marshaled name b' = VList l.
 Proof.
-  intros Hwf Hp H.
+  intros Hrep Hp H.
   destruct (apply_op_proceeds c (OpList name l) b b') as (n & Hn & Hl & _);
     [unfold op_proceeds; cbn; exact Hp | exact H |].
   cbn [op_node op_name] in Hn, Hl. unfold list_node in Hn.
-  destruct (entry_node_roundtrip _ Hwf) as (n' & Hn' & _ & Hg). rewrite Hn in Hn'. inversion Hn'; subst n'.
+  pose proof (entry_node_read_back _ _ Hrep Hn) as Hg.
   unfold get_list, get_marshaled. rewrite Hl.
   destruct (get_node_vlist_inv _ _ Hg) as (sub & size & -> & Hs & Hneg & Hm).
   rewrite Hs, Hneg, Hm. split; [reflexivity | exact Hg].
@@ -723,6 +867,7 @@ Section MapOrder.
   Variable f : X -> res node.
 
   Definition entry_storable (kx : str * X) : Prop :=
+    fst kx <> ListSizeKeyName /\
     exists n, f (snd kx) = Ok n /\ fst kx <> [] /\
               forall v, n = Leaf v -> len (fst kx) <= MaxKeySize /\ len v <= MaxValueSize.
 
@@ -751,17 +896,19 @@ Section MapOrder.
     fill_map f m acc = Ok c -> Forall entry_storable m.
   Proof.
     induction m as [|[k x] t IH]; intros acc c H; [constructor|].
-    cbn [fill_map] in H. destruct (f x) as [n| | |] eqn:Ef; cbn [bind] in H; try discriminate.
+    cbn [fill_map] in H. destruct (str_eqb k ListSizeKeyName) eqn:Em; [discriminate|]. apply str_eqb_neq in Em.
+    destruct (f x) as [n| | |] eqn:Ef; cbn [bind] in H; try discriminate.
     destruct (place k n acc) as [acc1| | |] eqn:Ep; cbn [bind] in H; try discriminate.
     constructor; [|exact (IH _ _ H)].
-    destruct (place_ok_conditions _ _ _ _ Ep) as [H1 H2]. exists n. cbn [fst snd]. repeat split; try assumption.
-    all: destruct (H2 v H0); assumption.
+    destruct (place_ok_conditions _ _ _ _ Ep) as [H1 H2]. split; [exact Em|]. exists n. cbn [fst snd].
+    split; [exact Ef|]. split; [exact H1|]. exact H2.
   Qed.
 
   Lemma fill_map_sorted : forall (m : list (str * X)) (acc c : bucket),
     Sorted str_lt (a_keys acc) -> fill_map f m acc = Ok c -> Sorted str_lt (a_keys c).
   Proof.
     induction m as [|[k x] t IH]; intros acc c Hs H; cbn [fill_map] in H; [inversion H; subst; exact Hs|].
+    destruct (str_eqb k ListSizeKeyName); [discriminate|].
     destruct (f x) as [n| | |] eqn:Ef; cbn [bind] in H; try discriminate.
     destruct (place k n acc) as [acc1| | |] eqn:Ep; cbn [bind] in H; try discriminate.
     apply (IH acc1 c); [|exact H]. rewrite (place_ok_insert _ _ _ _ Ep). apply a_insert_sorted. exact Hs.
@@ -774,7 +921,8 @@ Section MapOrder.
   Proof.
     induction m as [|[k x] t IH]; intros acc c Hnd H; cbn [fill_map] in H.
     - inversion H; subst. split; [intros k x [] | reflexivity].
-    - destruct (f x) as [n| | |] eqn:Ef; cbn [bind] in H; try discriminate.
+    - destruct (str_eqb k ListSizeKeyName); [discriminate|].
+      destruct (f x) as [n| | |] eqn:Ef; cbn [bind] in H; try discriminate.
       destruct (place k n acc) as [acc1| | |] eqn:Ep; cbn [bind] in H; try discriminate.
       cbn [map fst] in Hnd. inversion Hnd as [|? ? Hnotin Hnd']; subst.
       destruct (IH acc1 c Hnd' H) as [IH1 IH2]. split.
@@ -791,9 +939,9 @@ Section MapOrder.
     Forall entry_storable m -> exists c, fill_map f m acc = Ok c.
   Proof.
     induction m as [|[k x] t IH]; intros acc Hnd Hfresh Hst; [exists acc; reflexivity|].
-    inversion Hst as [|? ? (n & Hf & Hk & Hleaf) Hst']; subst. cbn [fst snd] in *.
+    inversion Hst as [|? ? (Hm & n & Hf & Hk & Hleaf) Hst']; subst. cbn [fst snd] in *.
     cbn [map fst] in Hnd. inversion Hnd as [|? ? Hnotin Hnd']; subst.
-    cbn [fill_map]. rewrite Hf. cbn [bind].
+    cbn [fill_map]. rewrite (proj2 (str_eqb_neq k ListSizeKeyName) Hm). rewrite Hf. cbn [bind].
     rewrite (place_fresh_storable k n acc Hk Hleaf) by (apply Hfresh; left; reflexivity). cbn [bind].
     apply IH; [exact Hnd' | | exact Hst'].
     intros k' Hk'. rewrite a_lookup_insert_other by (intros E; subst k'; contradiction).
